@@ -13,6 +13,27 @@ constructed against a running capacity model.  For every case
                 exactly the TL-B size of the value; at the end remaining_bits == 0 and remaining_refs == 0.
                 Addresses are compared on workchain, account id AND anycast (the library's == ignores anycast).
 
+Kinds of USE beyond "one value, stored once, read once" that a case may contain (all as plain data in the case):
+
+  input forms   store_bits is handed the same bit sequence as str / list / tuple / list of bool / bitarray and frozenbitarray with a
+                big-endian AND a little-endian buffer / TvmBitarray; store_bytes gets bytes / bytearray / memoryview.  The bits
+                written must be the SEQUENCE x[0], x[1], ... whatever the buffer layout (grid-bits-forms: every form x every
+                length 0..40 and word edges x prefix lengths 0,1,3,7,8,9,15,16,24 - the aligned and the misaligned ones).
+  look          a 'look' op = the caller prints / logs what it holds at that point: the builder and the cells stored so far on the
+                store side, the slice and the value just peeked on the load side (harness.core.look / describe: str, repr, format,
+                f-string, %s, bool).  Formatting is not a read: the content of builder / slice must be as before and the
+                following stores / loads are checked as usual (grid-refs-described: every pattern of 4 optional references /
+                dictionaries x every position of the look).
+  coincidences  two or three values in ONE cell that are different but collide under a plausible lossy key - the kind of pair a
+                memo / intern table / "normalised" lookup inside the library would confuse, and which random values never form:
+                user-friendly address strings equal after case folding (constructed: crc16 is linear, the set of letters whose
+                case is flipped is solved for over GF(2)), addresses with equal crc16 / equal text suffix / equal text prefix,
+                the same account in two workchains, Address.__hash__ twins, the same address with / without / with another
+                anycast, several spellings of ONE address (bounceable, non-bounceable, test-only, raw lower / upper hex);
+                integers equal modulo 2^32 / 2^64 or equal at another width, -1 vs all-ones, texts equal after case folding.
+                Every member is stored, peeked and loaded in the order A B A, so that whichever of the two the process met
+                first, the other one shows the confusion (grid-coincidences).
+
 Attribution / search behind a failure: when a store raises or writes other bits, the Fail is recorded and the builder
 is replaced by one holding the reference bits, so that the following stores and the loads are still examined and a
 load-side Fail is really a load-side root cause.  This is sound for the statement: it demands store(v) == R(v)
@@ -28,22 +49,27 @@ Development aid: env VERIF_IGNORE_SIG='sig1,sig2' makes the listed signatures co
 Signatures listed for C06 in known_findings.json are read (never written) so that a case reports an unlisted Fail
 in preference to a listed one - otherwise a listed store-side finding would mask the load-side findings behind it.
 """
+import base64
 import hashlib
 import os
 
 from hypothesis import strategies as st
-from harness.core import Sub, Fail, call, exc_sig
+from harness.core import Sub, Fail, call, exc_sig, describe, look
 from harness.ref import refbits as R
+from harness.ref import refaddr
+from harness.ref.refcrc import crc16_xmodem
 
 R.selftest()
 
 RULE = ('case = sequence of typed store operations (uint w1..256, int w1..257, var_uint/var_int with length field 1..5 bits, '
         'coins, bit, bool, bits, bytes, string<=127 UTF-8 bytes, snake bytes 0..1000 (last), maybe_ref, dict (cell/None), '
-        'dict_hm (library HashMap cell), slice (store_slice of a slice of which bits / references were already read, store_cell), a refused single-step store in between, addr_none, addr_ext len 0..511, addr_std wc -128..127, addr_std_anycast depth 1..30) '
+        'dict_hm (library HashMap cell), slice (store_slice of a slice of which bits / references were already read, store_cell), a refused single-step store in between, '
+        'look (builder / slice / peeked value printed in between), bits and bytes in every accepted input form (str, list, tuple, bools, big- and little-endian (frozen)bitarray, TvmBitarray; bytes, bytearray, memoryview), addr_none, addr_ext len 0..511, addr_std wc -128..127, addr_std_anycast depth 1..30) '
         'built against a running capacity model (<=1023 bits, <=4 refs) so every sequence fits; values biased to '
         'min,min+1,-1,0,1,max-1,max and top-bit-set; grids enumerate every width x boundary value, every var-int byte '
         'length x boundary value for every length-field width 1..5, every external-address length, every workchain, every '
-        'anycast depth, every snake length. non-trivial = >=3 operations of >=2 kinds; distinct = distinct case')
+        'anycast depth, every snake length, every bit-sequence form x length x alignment, every pattern of 4 optional refs/dicts x position of a print, '
+        'designed coincidences stored A B A (case-folding / equal-crc / equal-prefix / equal-suffix address texts, hash twins, anycast twins, spellings of one address, ints equal mod 2^32/2^64). non-trivial = >=3 operations of >=2 kinds; distinct = distinct case')
 ASSUMPTIONS = ['harness/ref/refbits.py (TL-B writer on str, self-tested on hand-computed vectors at import)',
                'Builder.store_bits(str)/store_ref/end_cell, Cell.bits.to01()/refs, Cell.begin_parse, '
                'Slice.remaining_bits/remaining_refs are the trusted observation base',
@@ -78,6 +104,8 @@ def kindclass(op, store_side=True):
         return k + (':len0' if op['len'] == 0 else '')
     if k in ('addr_std', 'addr_std_anycast'):
         return k + ('' if not store_side or op.get('via', 'obj') == 'obj' else ':' + op['via'])
+    if k in ('bits', 'bytes'):
+        return k + ((':' + op['form']) if store_side and op.get('form', 'str') not in ('str', 'bytes') else '')
     if k == 'slice':
         return 'slice' + ((':' + op['via']) if store_side else '') + (':all-refs-consumed' if op['pr'] and not op['r'] else '')
     return k
@@ -101,7 +129,7 @@ def enc_bits(op):
     if k in ('bits', 'slice'):
         assert R.is01(op['v'])
         return op['v']
-    if k in ('refused', 'rebind'):
+    if k in ('refused', 'rebind', 'look'):
         return ''
     if k == 'bytes':
         return R.from_bytes(bytes.fromhex(op['v']))
@@ -240,6 +268,42 @@ def _mk_address(op):
     return a
 
 
+BITS_FORMS = ('str', 'list', 'tuple', 'bools', 'ba-big', 'ba-little', 'frozen-big', 'frozen-little', 'tvm')
+BYTES_FORMS = ('bytes', 'bytearray', 'memoryview')
+
+
+def _bits_form(v, form):
+    """the bit sequence v ('0'/'1' text) as one of the objects store_bits accepts; x[i] == int(v[i]) for each of them"""
+    if form == 'str':
+        return v
+    if form == 'list':
+        return [int(c) for c in v]
+    if form == 'tuple':
+        return tuple(int(c) for c in v)
+    if form == 'bools':
+        return [c == '1' for c in v]
+    if form == 'tvm':
+        from pytoniq_core.boc.tvm_bitarray import TvmBitarray
+        t = TvmBitarray(1023)
+        t.extend(v)
+        return t
+    from bitarray import bitarray, frozenbitarray
+    kind, endian = form.split('-')
+    x = (bitarray if kind == 'ba' else frozenbitarray)(v, endian=endian)
+    assert x.to01() == v and len(x) == len(v) and all(x[i] == int(c) for i, c in enumerate(v))
+    return x
+
+
+def _text_means(text):
+    """(workchain, account id) a textual address denotes: raw 'wc:hex' or the 36-byte base64 form with a valid crc16 (TEP-2)"""
+    if ':' in text:
+        wc, acc = text.split(':')
+        return int(wc), bytes.fromhex(acc)
+    raw = base64.b64decode(text.replace('-', '+').replace('_', '/'), validate=True)
+    assert len(raw) == 36 and raw[0] in (0x11, 0x51, 0x91, 0xD1) and crc16_xmodem(raw[:34]) == int.from_bytes(raw[34:], 'big'), text
+    return int.from_bytes(raw[1:2], 'big', signed=True), raw[2:34]
+
+
 def _ascii(b):
     return bytes(32 + (x % 95) for x in b)
 
@@ -277,9 +341,11 @@ def _store(b, op, aux):
     if k == 'bool':
         return b.store_bool(bool(op['v']))
     if k == 'bits':
-        return b.store_bits(op['v'])
+        return b.store_bits(_bits_form(op['v'], op.get('form', 'str')))
     if k == 'bytes':
-        return b.store_bytes(bytes.fromhex(op['v']))
+        data = bytes.fromhex(op['v'])
+        form = op.get('form', 'bytes')
+        return b.store_bytes(data if form == 'bytes' else bytearray(data) if form == 'bytearray' else memoryview(data))
     if k == 'string':
         return b.store_string(op['v'])
     if k == 'snake':
@@ -317,6 +383,9 @@ def _store(b, op, aux):
         via = op.get('via', 'obj')
         if via == 'str':
             return b.store_address(f"{op['wc']}:{op['acc']}")
+        if via == 'text':                   # a given spelling; what it denotes is decoded by the harness, not by the library
+            assert _text_means(op['text']) == (op['wc'], bytes.fromhex(op['acc'])), 'generator: text does not denote the address'
+            return b.store_address(op['text'])
         if via == 'friendly':               # the user-friendly text form (TEP-2), written by the harness's own renderer
             from harness.ref import refaddr
             a0 = bytes.fromhex(op['acc'])
@@ -490,6 +559,16 @@ def _run(ops, fails):
                 fails.append(Fail(f'rebind/raises/{exc_sig(e)}', repr(e)))
             spans.append((len(exp_bits), len(exp_refs), None))
             continue
+        if k == 'look':
+            # the caller prints what it holds: formatting the builder / the cells it stored is not a store
+            _fmt(op['how'], b, *exp_refs)
+            got, got_refs = b.bits.to01(), list(b.refs)
+            if got != exp_bits or len(got_refs) != len(exp_refs) or not all(x is y or _cell_same(x, y) for x, y in zip(got_refs, exp_refs)):
+                fails.append(Fail(f'look/builder/content-altered-by-formatting',
+                                  f'op#{i} {op}: {len(got)} bits / {len(got_refs)} refs afterwards, {len(exp_bits)} / {len(exp_refs)} stored'))
+                b = _mk_builder(exp_bits, exp_refs)
+            spans.append((len(exp_bits), len(exp_refs), None))
+            continue
         if k == 'refused':
             f = _refused(b, op, exp_bits, exp_refs)
             if f is not None:
@@ -569,7 +648,19 @@ def _run(ops, fails):
     # ---- load phase
     s = alt if alt is not None else cell.begin_parse()
     off, roff = 0, 0
+    show = None
     for i, op in enumerate(ops):
+        if op['op'] == 'look':
+            # print(slice) / a log line between two reads is not a read: what is left to read is what was left before
+            snap = (s.remaining_bits, s.remaining_refs, s.bits.to01())
+            _fmt(op['how'], s)
+            now = (s.remaining_bits, s.remaining_refs, s.bits.to01())
+            if now != snap or not call(lambda: all(_cell_same(s.preload_ref(j), exp_refs[roff + j]) for j in range(snap[1]))) == (True, True):
+                fails.append(Fail('look/slice/unread-part-altered-by-formatting',
+                                  f'op#{i} {op}: remaining bits/refs {snap[0]}/{snap[1]} -> {now[0]}/{now[1]} (or other references)'))
+                s = _mk_builder(exp_bits[off:], exp_refs[roff:]).end_cell().begin_parse()
+            show = op['how']
+            continue
         if op['op'] in ('refused', 'rebind'):
             continue
         kc = kindclass(op, store_side=False)
@@ -582,6 +673,10 @@ def _run(ops, fails):
                 fails.append(Fail(f'preload/{kc}/raises/{exc_sig(pv)}', f'op#{i} {_short(op)}: {pv!r}'))
             elif not same(pv):
                 fails.append(Fail(f'preload/{kc}/value-differs', f'op#{i} {_short(op)}: peek returned {_show(pv)}'))
+            elif show is not None:
+                _fmt(show, pv)              # the peeked value is printed before the consuming read
+                if not same(pv):
+                    fails.append(Fail(f'look/{kc}/peeked-value-altered-by-formatting', f'op#{i} {_short(op)}: now {_show(pv)}'))
             if (s.remaining_bits, s.remaining_refs, s.bits.to01()) != snap:
                 fails.append(Fail(f'preload/{kc}/consumes-or-alters-slice',
                                   f'op#{i} {_short(op)}: remaining bits/refs {snap[0]}/{snap[1]} -> {s.remaining_bits}/{s.remaining_refs}'))
@@ -601,10 +696,21 @@ def _run(ops, fails):
                                   f'op#{i} {_short(op)}: remaining bits/refs {s.remaining_bits}/{s.remaining_refs}, expected {want[0]}/{want[1]}'))
                 resync = True
         off, roff = end, rend
+        show = None
         if resync:
             s = _mk_builder(exp_bits[off:], exp_refs[roff:]).end_cell().begin_parse()
     if s.remaining_bits != 0 or s.remaining_refs != 0:
         fails.append(Fail('end/not-fully-consumed', f'{s.remaining_bits} bits, {s.remaining_refs} refs left'))
+
+
+def _fmt(how, *objs):
+    """what a caller's print / logging does with objects it holds; results and exceptions are nobody's property here"""
+    if how == 'describe':
+        describe(*objs)
+    else:
+        for o in objs:
+            for _ in range(2 if how == 'look2' else 1):
+                look(o)
 
 
 def _first_diff(a, b):
@@ -664,7 +770,7 @@ def classify(case):
     before, total = _layout(ops)
     seen = set()
     refs_used = sum(n_refs(op) for op in ops)
-    for op, used in zip(ops, before):
+    for pos, (op, used) in enumerate(zip(ops, before)):
         k = op['op']
         labels = ['kind=' + k]
         if k in ('var_uint', 'var_int', 'coins'):
@@ -708,6 +814,16 @@ def classify(case):
             labels.append('refused:' + op['what'])
         elif k == 'rebind':
             labels.append('rebind:' + op['what'])
+        elif k == 'look':
+            labels.append('look:' + op['how'])
+            labels.append('look:refs-read=' + str(min(2, sum(n_refs(o) for o in ops[:pos]))) +
+                          ',unread=' + str(min(2, sum(n_refs(o) for o in ops[pos:]))))
+        elif k == 'bits':
+            labels.append('bits:form=' + op.get('form', 'str'))
+            if op.get('form', 'str') != 'str':
+                labels.append('bits:form!=str,' + ('len%8=0' if len(op['v']) % 8 == 0 else 'len%8!=0') + ',' + ('at%8=0' if used % 8 == 0 else 'at%8!=0'))
+        elif k == 'bytes':
+            labels.append('bytes:form=' + op.get('form', 'bytes'))
         for lb in labels:
             if lb not in seen:
                 seen.add(lb)
@@ -716,6 +832,8 @@ def classify(case):
         yield 'cell:full-1023-bits'
     if refs_used == 4:
         yield 'cell:4-refs'
+    if case.get('twin'):
+        yield 'twin=' + case['twin']
     n = len(ops)
     yield 'ops=' + ('1-2' if n < 3 else '3-5' if n <= 5 else '6-10' if n <= 10 else '>10')
 
@@ -799,10 +917,10 @@ _acc = st.one_of(st.binary(min_size=32, max_size=32),
 
 _KIND_W = [('uint', 5), ('int', 5), ('var_uint', 4), ('var_int', 6), ('coins', 3), ('bit', 2), ('bool', 2), ('bits', 2),
            ('bytes', 2), ('string', 2), ('maybe_ref', 3), ('dict', 1), ('dict_hm', 1), ('addr_none', 1), ('addr_ext', 3),
-           ('addr_std', 2), ('addr_std_anycast', 3), ('slice', 4), ('refused', 3), ('rebind', 2)]
+           ('addr_std', 2), ('addr_std_anycast', 3), ('slice', 4), ('refused', 3), ('rebind', 2), ('look', 3)]
 _NEED = {'uint': 1, 'int': 1, 'var_uint': 1, 'var_int': 1, 'coins': 4, 'bit': 1, 'bool': 1, 'bits': 0, 'bytes': 0,
          'string': 8, 'maybe_ref': 1, 'dict': 1, 'dict_hm': 1, 'addr_none': 2, 'addr_ext': 11, 'addr_std': 267,
-         'addr_std_anycast': 273, 'slice': 0, 'refused': 0, 'rebind': 0}
+         'addr_std_anycast': 273, 'slice': 0, 'refused': 0, 'rebind': 0, 'look': 0}
 
 
 def _fit_utf8(s, limit):
@@ -837,10 +955,14 @@ def _draw_op(draw, kind, left, refs_left):
         return {'op': 'bool', 'v': draw(st.booleans())}
     if kind == 'bits':
         n = draw(st.one_of(st.integers(0, min(left, 24)), st.integers(0, left)))
-        return {'op': 'bits', 'v': draw(_bits01(n))}
+        if draw(st.booleans()):                # whole bytes: the lengths a "fast path" would single out
+            n -= n % 8
+        return {'op': 'bits', 'v': draw(_bits01(n)), 'form': draw(st.sampled_from(BITS_FORMS))}
     if kind == 'bytes':
         n = draw(st.one_of(st.integers(0, min(left // 8, 8)), st.integers(0, left // 8)))
-        return {'op': 'bytes', 'v': draw(st.binary(min_size=n, max_size=n)).hex()}
+        return {'op': 'bytes', 'v': draw(st.binary(min_size=n, max_size=n)).hex(), 'form': draw(st.sampled_from(BYTES_FORMS))}
+    if kind == 'look':
+        return {'op': 'look', 'how': draw(st.sampled_from(['look', 'look', 'look2', 'describe']))}
     if kind == 'string':
         limit = min(127, left // 8)
         t = draw(st.one_of(st.text(min_size=1, max_size=12), st.text(min_size=1, max_size=127),
@@ -1044,6 +1166,8 @@ def enum_snake(tier):
             # maybe_ref bits break byte alignment: re-align with a uint so that the snake reader's precondition holds
             if refs % 8:
                 ops.append({'op': 'uint', 'w': 8 - refs % 8, 'v': 1})
+            if refs and ln % 3 == 0:          # the slice is printed after the references in front were read
+                ops.append({'op': 'look', 'how': ('look', 'describe')[ln % 2]})
             ops.append({'op': 'snake', 'v': _stream(f'snake{prefix}/{ln}', ln).hex()})
             if len(ops) < 3:          # keep the byte budget: split the prefix instead of adding to it
                 if prefix:
@@ -1059,6 +1183,224 @@ def enum_snake(tier):
                        {'op': 'snake', 'v': _stream(f'snake-long{prefix}/{ln}', ln).hex(), 'as': 'bytes' if ln % 2 else 'string-ascii'}]}
 
 
+def _sbits(tag, n):
+    return R.from_bytes(_stream(tag, (n + 7) // 8))[:n]
+
+
+def enum_forms(tier):
+    """one bit sequence handed to store_bits in every accepted form, at every alignment; one byte string in every bytes-like form"""
+    lens = list(range(0, 41)) + [47, 48, 63, 64, 65, 128, 255, 256, 257, 512]
+    for n in lens:
+        for p in (0, 1, 3, 7, 8, 9, 15, 16, 24):
+            for form in BITS_FORMS[1:]:
+                yield {'ops': [{'op': 'bits', 'v': _sbits(f'fp{p}', p)}, {'op': 'bits', 'v': _sbits(f'fv{n}/{p}', n), 'form': form},
+                               {'op': 'int', 'w': 3, 'v': -2}]}
+    for n in (0, 1, 2, 3, 8, 32, 64, 100):
+        for p in (0, 1, 7, 8, 16):
+            for form in BYTES_FORMS:
+                yield {'ops': [{'op': 'bits', 'v': _sbits(f'fp{p}', p)}, {'op': 'bytes', 'v': _stream(f'fb{n}/{p}', n).hex(), 'form': form},
+                               {'op': 'int', 'w': 3, 'v': -2}]}
+
+
+def enum_described(tier):
+    """every pattern of four optional references / dictionaries (absent, a cell, a HashMap cell) with small fields in between; the
+    caller prints builder / slice once, before slot 0..3 or after the last one"""
+    n = 0
+    for code in range(81):
+        slots = [(code // 3 ** j) % 3 for j in range(4)]
+        for pos in range(5):
+            n += 1
+            ops = []
+            for j, sl in enumerate(slots):
+                if j == pos:
+                    ops.append({'op': 'look', 'how': ('look', 'describe', 'look2')[n % 3]})
+                if sl == 0:
+                    ops.append({'op': ('maybe_ref', 'dict')[(j + code) % 2], 'v': None})
+                elif sl == 1:
+                    ops.append({'op': ('maybe_ref', 'dict')[(j + n) % 2], 'v': {'b': R.uint(0xA + j, 4 + j), 'r': []}})
+                else:
+                    ops.append({'op': 'dict_hm', 'kl': 8, 'items': [[j + 1, 11 * (j + 1)], [200 + j, 22]]})
+                if (code + j) % 2:
+                    ops.append({'op': 'int', 'w': 5, 'v': -3 - j})
+            if pos == 4:
+                ops.append({'op': 'look', 'how': ('look', 'describe', 'look2')[n % 3]})
+            ops.append({'op': 'uint', 'w': 7, 'v': 77})
+            yield {'ops': ops}
+
+
+# ---- designed coincidences
+
+def _gf2_dependency(vecs):
+    """indices of a non-empty subset of the integers `vecs` whose XOR is 0 (Gaussian elimination over GF(2)); None if independent"""
+    basis = {}
+    for i, v in enumerate(vecs):
+        m = 1 << i
+        while v:
+            top = v.bit_length() - 1
+            if top not in basis:
+                basis[top] = (v, m)
+                break
+            v, m = v ^ basis[top][0], m ^ basis[top][1]
+        if v == 0:
+            return [j for j in range(i + 1) if (m >> j) & 1]
+    return None
+
+
+def _xor(a, b):
+    return bytes(x ^ y for x, y in zip(a, b))
+
+
+def _b64raw(text):
+    return base64.b64decode(text.replace('-', '+').replace('_', '/'), validate=True)
+
+
+def case_twin(text):
+    """another VALID user-friendly address that differs from `text` only in the case of letters (same tag). CRC-16/XMODEM has a
+    zero initial value, so it is linear: flipping the case of the letter at position i changes the 36 bytes by a fixed XOR
+    pattern D_i (distinct characters cover distinct bits), and the flipped set F gives a valid address iff the XOR over F of
+    crc16(D_i[:34]) ^ D_i[34:] is zero."""
+    raw = _b64raw(text)
+    pos, syn = [], []
+    for i in range(2, len(text)):            # characters 0 and 1 hold the tag byte
+        if text[i].isascii() and text[i].isalpha():
+            d = _xor(raw, _b64raw(text[:i] + text[i].swapcase() + text[i + 1:]))
+            pos.append(i)
+            syn.append(crc16_xmodem(d[:34]) ^ int.from_bytes(d[34:], 'big'))
+    dep = _gf2_dependency(syn)
+    if dep is None:
+        return None
+    flip = {pos[j] for j in dep}
+    twin = ''.join(c.swapcase() if i in flip else c for i, c in enumerate(text))
+    assert twin != text and twin.lower() == text.lower() and _b64raw(twin)[0] == raw[0]
+    _text_means(twin)                        # asserts validity
+    return twin
+
+
+def crc_twin(wc, acc, first_byte, last_byte):
+    """another account id, differing only inside bytes first_byte..last_byte, whose friendly form has the SAME crc16"""
+    bits = [(j, k) for j in range(first_byte, last_byte + 1) for k in range(8)]
+    syn = []
+    for j, k in bits:
+        d = bytearray(34)
+        d[2 + j] = 1 << k
+        syn.append(crc16_xmodem(bytes(d)))
+    dep = _gf2_dependency(syn)
+    out = bytearray(acc)
+    for t in dep:
+        out[bits[t][0]] ^= 1 << bits[t][1]
+    out = bytes(out)
+    assert out != acc and refaddr.friendly(wc, out)[-3:] == refaddr.friendly(wc, acc)[-3:]
+    return out
+
+
+def _aba(tag, a, b, salt, third=None):
+    """the members of a coincidence stored A B A (or A B C) behind a misaligning prefix, closed by a marker"""
+    p = salt % 8
+    return {'twin': tag, 'ops': [{'op': 'bits', 'v': _sbits(f'tw{salt}', p)}, a, b, dict(third or a), {'op': 'uint', 'w': 3, 'v': 5}]}
+
+
+def enum_twins(tier):
+    salt = 0
+    std = lambda wc, acc, via='obj', **kw: dict({'op': 'addr_std', 'wc': wc, 'acc': acc.hex(), 'via': via}, **kw)
+    txt = lambda wc, acc, text: std(wc, acc, 'text', text=text)
+    for k in range(6 if tier == 'quick' else 40):
+        acc = _stream(f'twin-acc{k}', 32)
+        wc = (0, -1, 0, 127, -128, k)[k % 6]
+        flags = dict(bounceable=k % 2 == 0, test_only=k % 3 == 2)
+        s1 = refaddr.friendly(wc, acc, **flags)
+        # (1) texts equal after case folding - base64 is case sensitive: two different addresses
+        s2 = case_twin(s1)
+        if s2 is not None:
+            wc2, acc2 = _text_means(s2)
+            for a, b in ((txt(wc, acc, s1), txt(wc2, acc2, s2)), (txt(wc2, acc2, s2), txt(wc, acc, s1)),
+                         (txt(wc, acc, s1), std(wc2, acc2)), (std(wc2, acc2, 'to_cell'), txt(wc, acc, s1))):
+                salt += 1
+                yield _aba('addr-text-casefold', a, b, salt)
+        # (2) equal crc16 / equal text suffix (differences in the first bytes) / equal text prefix (difference in the last byte)
+        for lo, hi, tag in ((0, 3, 'addr-same-crc+suffix'), (28, 31, 'addr-same-crc+prefix'), (0, 31, 'addr-same-crc')):
+            acc2 = crc_twin(wc, acc, lo, hi)
+            for via in ('text', 'obj', 'str'):
+                salt += 1
+                mk = (lambda c: txt(wc, c, refaddr.friendly(wc, c, **flags))) if via == 'text' else (lambda c: std(wc, c, via))
+                yield _aba(tag, mk(acc), mk(acc2), salt)
+        acc3 = acc[:31] + bytes([acc[31] ^ (1 << k % 8)])
+        acc4 = bytes([acc[0] ^ (0x80 >> k % 8)]) + acc[1:]
+        for other, tag in ((acc3, 'addr-differs-in-last-byte'), (acc4, 'addr-differs-in-first-byte')):
+            for via in ('text', 'obj'):
+                salt += 1
+                mk = (lambda c: txt(wc, c, refaddr.friendly(wc, c, **flags))) if via == 'text' else (lambda c: std(wc, c, via))
+                yield _aba(tag, mk(acc), mk(other), salt)
+        # (3) one account in two workchains; Address.__hash__ twins (int(account) + workchain)
+        wcb = (wc + 1) if wc < 127 else wc - 1
+        for via in ('text', 'obj', 'str', 'to_cell'):
+            salt += 1
+            mk = (lambda w: txt(w, acc, refaddr.friendly(w, acc, **flags))) if via == 'text' else (lambda w: std(w, acc, via))
+            yield _aba('addr-same-account-other-wc', mk(wc), mk(wcb), salt)
+        n = int.from_bytes(acc, 'big')
+        acch = (n + wc - wcb).to_bytes(32, 'big')
+        for via in ('obj', 'to_cell'):
+            salt += 1
+            yield _aba('addr-hash-twin', std(wc, acc, via), std(wcb, acch, via), salt)
+        # (4) several spellings of ONE address: the same value must come back, whichever was seen first
+        sp = [refaddr.friendly(wc, acc, True, False), refaddr.friendly(wc, acc, False, False), refaddr.friendly(wc, acc, True, True),
+              refaddr.friendly(wc, acc, False, True), refaddr.friendly(wc, acc, **flags, url_safe=False), refaddr.raw(wc, acc),
+              f'{wc}:{acc.hex().upper()}']
+        for j in range(len(sp)):
+            salt += 1
+            yield _aba('addr-spellings-of-one', txt(wc, acc, sp[j]), txt(wc, acc, sp[(j + 1) % len(sp)]), salt,
+                       third=txt(wc, acc, sp[(j + 3) % len(sp)]))
+        # (5) the same address without / with / with another anycast (Address.__eq__ and __hash__ ignore anycast)
+        d = (1, 2, 5, 8, 29, 30)[k % 6]
+        pf = int.from_bytes(acc[:4], 'big') >> (32 - d)
+        anyc = lambda dd, pp, via='obj': {'op': 'addr_std_anycast', 'wc': wc, 'acc': acc.hex(), 'depth': dd, 'pfx': pp, 'via': via}
+        for a, b, c in ((std(wc, acc), anyc(d, pf), std(wc, acc)), (anyc(d, pf), std(wc, acc), anyc(d, pf)),
+                        (anyc(d, pf), anyc(d, pf ^ 1), anyc(d, pf)), (anyc(d, pf), anyc(d - 1 or 2, pf >> 1 if d > 1 else 3), anyc(d, pf)),
+                        (anyc(d, pf, 'to_cell'), std(wc, acc, 'to_cell'), anyc(d, pf ^ 1, 'to_cell')),
+                        (std(wc, acc, 'str'), anyc(d, pf), std(wc, acc, 'text', text=s1))):
+            salt += 1
+            yield _aba('addr-anycast-twin', a, b, salt, third=c)
+        # (6) external addresses: same number at another length, same length other number
+        ln = (1, 8, 9, 64, 200, 256)[k % 6]
+        v = int.from_bytes(acc, 'big') >> (256 - ln)
+        ext = lambda val, n_, via='obj': {'op': 'addr_ext', 'len': n_, 'v': val, 'via': via}
+        for a, b in ((ext(v, ln), ext(v, ln + 1)), (ext(v, ln), ext(v ^ 1, ln)), (ext(v, ln, 'to_cell'), ext(v, ln + 8, 'to_cell')),
+                     (ext(0, ln), ext(0, ln + 1))):
+            salt += 1
+            yield _aba('addr-ext-twin', a, b, salt)
+    # (7) numbers and texts that are different values but equal under a lossy key
+    u = lambda v, w: {'op': 'uint', 'w': w, 'v': v}
+    i_ = lambda v, w: {'op': 'int', 'w': w, 'v': v}
+    pairs = []
+    for w in (8, 31, 32, 33, 64, 65, 128, 256):
+        m = (1 << w) - 1
+        x = int.from_bytes(_stream(f'twin-int{w}', 32), 'big') & m
+        pairs += [('int-same-value-other-width', u(x >> 1, w), u(x >> 1, w - 1)), ('int-same-bits-other-sign', u(m, w), i_(-1, w)),
+                  ('int-same-bits-other-sign', i_(-(1 << (w - 1)), w), u(1 << (w - 1), w)),
+                  ('int-same-value-other-width', i_(-5, w), i_(-5, w + 1))]
+        for mod in (32, 64):
+            if w > mod:
+                pairs.append((f'int-equal-mod-2^{mod}', u(x, w), u(x ^ (1 << mod) ^ (1 << (w - 1)), w)))
+                pairs.append((f'int-equal-mod-2^{mod}', i_(x - (1 << (w - 1)), w), i_((x ^ (1 << mod)) - (1 << (w - 1)), w)))
+    for bl in (3, 4, 5):
+        pairs += [('varint-same-value-other-kind', {'op': 'var_uint', 'bl': bl, 'v': 200}, {'op': 'var_int', 'bl': bl, 'v': 200}),
+                  ('varint-same-value-other-kind', {'op': 'var_int', 'bl': bl, 'v': -1}, {'op': 'var_uint', 'bl': bl, 'v': 255}),
+                  ('varint-same-value-other-lenfield', {'op': 'var_uint', 'bl': bl, 'v': 65535}, {'op': 'var_uint', 'bl': bl - 1, 'v': 65535})]
+    pairs += [('varint-same-value-other-kind', {'op': 'coins', 'v': 10 ** 9}, {'op': 'var_uint', 'bl': 5, 'v': 10 ** 9}),
+              ('text-casefold', {'op': 'string', 'v': 'Stra\u00dfe Ab'}, {'op': 'string', 'v': 'STRASSE AB'}),
+              ('text-casefold', {'op': 'string', 'v': 'ton'}, {'op': 'string', 'v': 'TON'}),
+              ('text-normal-forms', {'op': 'string', 'v': 'caf\u00e9'}, {'op': 'string', 'v': 'cafe\u0301'}),
+              ('text-vs-bytes', {'op': 'string', 'v': 'ab'}, {'op': 'bytes', 'v': '6162'}),
+              ('bytes-casefold', {'op': 'bytes', 'v': '4142'}, {'op': 'bytes', 'v': '6162'}),
+              ('bits-same-value-other-length', {'op': 'bits', 'v': '0101'}, {'op': 'bits', 'v': '101'}),
+              ('bits-same-value-other-length', {'op': 'bits', 'v': '0000'}, {'op': 'bits', 'v': '00000', 'form': 'ba-little'}),
+              ('ref-same-bits-other-refs', {'op': 'maybe_ref', 'v': {'b': '1010', 'r': []}}, {'op': 'maybe_ref', 'v': {'b': '1010', 'r': [{'b': '', 'r': []}]}}),
+              ('ref-same-bits-other-refs', {'op': 'dict', 'v': {'b': '', 'r': []}}, {'op': 'maybe_ref', 'v': {'b': '0', 'r': []}})]
+    for tag, a, b in pairs:
+        for x, y in ((a, b), (b, a)):
+            salt += 1
+            yield _aba(tag, x, y, salt)
+
+
 SUBCHECKS = [
     Sub('grid-fixed-width', check, enum=enum_fixed, classify=classify, nontrivial=nontrivial, shards=(8, 8), exhaustive=True,
         note='every width 1..256 (uint) / 1..257 (int) x {min,min+1,-2,-1,0,1,max-1,max,top-bit,...} at 8 bit offsets'),
@@ -1068,6 +1410,14 @@ SUBCHECKS = [
         note='addr_none; every external length 0..511; every workchain x 3 ways of storing; every anycast depth 1..30'),
     Sub('grid-snake', check, enum=enum_snake, classify=classify, nontrivial=nontrivial, shards=(8, 16),
         note='snake lengths 0..1000 after 0/1/64/126/127 prefix bytes and 0..4 consumed references'),
+    Sub('grid-bits-forms', check, enum=enum_forms, classify=classify, nontrivial=nontrivial, shards=(8, 8), exhaustive=True,
+        note='store_bits(list/tuple/bools/bitarray big+little/frozenbitarray big+little/TvmBitarray) for every length 0..40, word edges, '
+             'after 0,1,3,7,8,9,15,16,24 bits; store_bytes(bytes/bytearray/memoryview)'),
+    Sub('grid-refs-described', check, enum=enum_described, classify=classify, nontrivial=nontrivial, shards=(8, 8), exhaustive=True,
+        note='3^4 patterns of optional references / dictionaries x the position (0..4) at which builder and slice are printed'),
+    Sub('grid-coincidences', check, enum=enum_twins, classify=classify, nontrivial=nontrivial, shards=(8, 8),
+        note='designed pairs stored A B A: case-folding / equal-crc / equal-prefix / equal-suffix address texts, workchain and '
+             '__hash__ twins, anycast twins, spellings of one address, external-address twins, ints equal mod 2^32/2^64, texts'),
     Sub('sequences-random', check, strategy=strat_sequences, classify=classify, nontrivial=nontrivial,
         n=(8000, 200000), shards=(16, 32)),
 ]
